@@ -328,4 +328,9 @@ def trace_calls(
         yield
     finally:
         sys.setprofile(old_trace)
-        logger.flush()
+        try:
+            logger.flush()
+        except Exception:
+            # Like a failure while collecting a trace, a failure to store the
+            # traces must not reach (or mask an exception of) the traced program.
+            logging.getLogger(__name__).exception("Failed flushing traces")
